@@ -83,7 +83,7 @@ class PyObj(ContainerNode):
 
     def to_obj(self):
         return {
-            self.class_name: self.attrs.to_obj()
+            self.class_name.to_obj(): self.attrs.to_obj()
         }
 
     def edits(self, node: TreeNode) -> Edit:
